@@ -15,10 +15,10 @@ CHECKS = {
  "C03": ("pbt+net", "seeded proptest over (file length, Range header) with an independent RFC 7233 reference model (M-RANGE)",
          "Exploration: 48k (quick) / 3M (thorough) (L, header) pairs with offsets concentrated at 0, 1, L-2..L+1, 2^63, u64::MAX and beyond, 1-6 specs, malformed shapes, reached directly, via directory index and via .html fallback. Satisfiable headers must be served exactly (bytes, label, length, order); others must be 416 or self-consistent. One listed known finding (label last = L) is counted and excluded so that the search continues behind it.",
          "Position-dependent file content makes any wrong offset visible; 'valid' is the RFC 7233 ABNF as parsed by the harness.", "DESIGN.md §4 C03"),
- "C04": ("pbt", "grammar-based request mutation (seeded proptest, supervised worker processes) against a strict response parser and a request-line reference model",
+ "C04": ("pbt+net", "grammar-based request mutation (seeded proptest, supervised worker processes) against a strict response parser and a request-line reference model",
          "Exploration: 40k (quick) / 3M (thorough) generated requests - coherent requests to every endpoint and free hostile combinations, 0-4 byte-level mutations, thousands of header lines, oversize, three buffer sizes, three application kinds - run through the real Server::process on a mock transport; panics are caught, aborts (stack overflow) are attributed to the in-flight case by the supervisor. Each response must be exactly one M-HTTP response with an error status where the pre-parser or the handler demands it.",
          "In-process: survival is seen as absence of panic/abort; the harness's pre-parser only demands a status for the classes the statement names. Process-level survival over the network is checked by C06.", "DESIGN.md §4 C04"),
- "C05": ("pbt", "seeded proptest: strict independent response parser (M-HTTP) over the request-mutation campaign + differential short-write/unlimited transport",
+ "C05": ("pbt+net", "seeded proptest: strict independent response parser (M-HTTP) over the request-mutation campaign + differential short-write/unlimited transport",
          "Exploration: 24k (quick) / 2M (thorough) responses from valid and hostile requests on both entry points checked against M-HTTP's well-formedness and self-consistency rules, and 24k / 1M (request, write script) pairs - every chunk size 1..64, a boundary at every byte of the head (also enumerated exhaustively for three requests), random chunk sequences, Ok(0), write error at byte k, flush error - compared with the unlimited-transport response.",
          "Mock transport implements std::io::Write faithfully (short counts are legal); responses compared modulo the timestamp header value.", "DESIGN.md §4 C05"),
  "C06": ("pbt+net+shuttle", "stateful (history) property testing: generated connection histories against the real binary with fault injection at the socket level and an owned acceptor schedule (SIGSTOP/SIGCONT), invariant checked after every history; pool half under shuttle with panicking jobs",
@@ -33,7 +33,7 @@ CHECKS = {
  "C09": ("pbt+net", "seeded proptest over generated trees; differential GET vs HEAD vs OPTIONS per servable path with a CORS reference model for the default configuration",
          "Exploration: 48 (quick) / 2,000 (thorough) generated trees, every servable path x 4 header variants x 2 entry points as GET/HEAD/OPTIONS triples (about 24k requests per quick run); HEAD must equal GET in status and header multiset with an empty body, OPTIONS must be a bodiless 2xx with the predicted preflight grants.",
          "GET's own correctness is C02's; CORS grants are judged for the default allow-all configuration (C11 varies it).", "DESIGN.md §4 C09"),
- "C10": ("pbt", "seeded proptest: header-multiset invariant over every response of the request-mutation campaign",
+ "C10": ("pbt+net", "seeded proptest: header-multiset invariant over every response of the request-mutation campaign",
          "Exploration: 40k (quick) / 3M (thorough) responses (200, 204, 206, 400, 404, 416, built-in pages, form endpoints, unparseable input; both entry points; allow-all and restricted CORS configuration) must carry each hardening / no-cache header exactly once with the stated value.",
          "Statuses rws cannot be driven to from outside (500) are not reached; crashed requests are C04's.", "DESIGN.md §4 C10"),
  "C11": ("pbt", "seeded proptest over (configuration, Origin, method) with a CORS policy reference model (M-CORS), three routes incl. the full server",
